@@ -67,7 +67,17 @@ def generate(seed, tier):
     platform = "Linux"
     if fmt == "lopar" and rng.random() < 0.08:
         platform = rng.choice(["Darwin", "Windows"])
+    prior = []
+    if path == "api" and rng.random() < 0.3:
+        prior = [model.gen_treebank(rng, k, nsent=rng.choice([1, 2]))
+                 for _ in range(rng.choice([1, 3, 6]))]
+        for ptb in prior:
+            for s in ptb:
+                for t in s["tokens"]:
+                    if t[0] and t[0][-1].isdigit():
+                        t[0] = t[0] + "a"
     return {"tb": tb, "fmt": fmt, "enc": enc, "mode": mode, "path": path, "opts": opts,
+            "prior": prior,
             "platform": platform, "reread": rng.random() < 0.6, "shuffle": rng.randrange(1 << 30),
             "layout": rng.randrange(1 << 30), "io_seed": rng.randrange(1 << 30),
             "src": rng.choice(["export", "tigerxml"])}
@@ -75,6 +85,20 @@ def generate(seed, tier):
 
 FILES = {"pmcfg": [".pmcfg", ".lex"], "rcg": [".rcg", ".lex"],
          "lopar": [".gram", ".lex", ".start", ".oc", ".OC"]}
+
+
+def prior_ops(sc):
+    """Earlier, unrelated grammars extracted, written and dropped in the same process."""
+    ops = []
+    for j, tb in enumerate(sc.get("prior", [])):
+        ops.append(["gnew", "p"])
+        for i, s in enumerate(tb):
+            ops.append(["build", "t", s, 77 + i])
+            ops.append(["extract", "t", "p"])
+        ops.append(["gwrite", sc["fmt"] if sc["fmt"] != "lopar" else "pmcfg", "p",
+                    "/sim/w/prior/p%d" % j, sc["enc"], sc["opts"]])
+        ops.append(["gnew", "p"])
+    return ops
 
 
 def api_ops(sc, write=True):
@@ -124,7 +148,7 @@ def decode_all(sc, files, st):
 
 def execute(sc, sim):
     st = cm.Stats()
-    st.declare("rule_count_above_1", "ambiguous_word", "non_ascii_word", "fanout_above_1",
+    st.declare("earlier_grammars_written_in_same_process", "rule_count_above_1", "ambiguous_word", "non_ascii_word", "fanout_above_1",
                "lex_in_grammar", "cli_path", "own_reader_reread", "grammar_cmd_from_rcg",
                "lopar_refuses_non_cf", "lopar_start_2plus_symbols", "second_hash_seed",
                "shared_linearization_sequence", "other_platform_refused")
@@ -143,9 +167,29 @@ def execute(sc, sim):
         st.probe("fanout_above_1")
     if "lex_in_grammar" in sc["opts"]:
         st.probe("lex_in_grammar")
-    base = {"dirs": ["/sim/w/out"], "io_seed": sc["io_seed"], "platform": sc["platform"]}
+    base = {"dirs": ["/sim/w/out", "/sim/w/prior"], "io_seed": sc["io_seed"],
+            "platform": sc["platform"]}
     # ---- in-memory grammar (always through the API, dumped before any writer runs)
-    if sc["path"] == "api":
+    if sc["path"] == "api" and sc.get("prior"):
+        # batch use of the API: earlier grammars are written and dropped in the same process
+        st.probe("earlier_grammars_written_in_same_process")
+        st.fault("history")
+        wfmt = sc["fmt"] if sc["fmt"] != "lopar" else "pmcfg"
+        items = [{"tb": tb, "shuffle": 77, "mode": None, "fmt": wfmt,
+                  "dest": "/sim/w/prior/p%d" % j, "enc": sc["enc"], "opts": sc["opts"]}
+                 for j, tb in enumerate(sc["prior"])]
+        items.append({"tb": sc["tb"], "shuffle": sc["shuffle"], "mode": sc["mode"],
+                      "fmt": sc["fmt"], "dest": "/sim/w/out/g", "enc": sc["enc"],
+                      "opts": sc["opts"]})
+        obs = sim.run(dict(base, sessions=[{"id": "s", "ops": [["gbatch", items]]}]))
+        rec = obs["sessions"]["s"][0]
+        if "ok" in rec:
+            obs["sessions"]["s"] = [{"op": "gdump", "ok": rec["ok"][-1]},
+                                    {"op": "gwrite", "ok": None}]
+        else:
+            # which part failed is not observable here: fall back to the stepwise path
+            obs = sim.run(dict(base, sessions=[{"id": "s", "ops": api_ops(dict(sc, prior=[]))}]))
+    elif sc["path"] == "api":
         obs = sim.run(dict(base, sessions=[{"id": "s", "ops": api_ops(sc)}]))
     else:
         st.probe("cli_path")
@@ -267,7 +311,8 @@ def judge_files(sc, obs, memflat, memlex, st, tag="", history=True):
         if obs.get("unclosed_at_return"):
             return cm.viol("C09/file-set/left-open/%s" % fmt, files=obs["unclosed_at_return"])
         touched = sorted(set(p for (_, p, _, _) in obs.get("writelog", [])))
-        other = [p for p in touched if not p.startswith("/sim/w/out/g.")]
+        other = [p for p in touched if not p.startswith("/sim/w/out/g.")
+                 and not p.startswith("/sim/w/prior/")]
         if other:
             return cm.viol("C09/file-set/foreign-file-written/%s" % fmt, files=other)
     st.check("file_sets_judged")
@@ -345,6 +390,10 @@ def done(sc, st, viols):
 
 
 def shrink_candidates(sc):
+    if sc.get("prior"):
+        c = model.clone(sc)
+        c["prior"] = sc["prior"][:-1]
+        yield c
     if sc["path"] == "cli":
         c = model.clone(sc)
         c["path"] = "api"
